@@ -1,6 +1,139 @@
 """C05 — raft vote, term, membership and node addresses are durable and never regress (history part + crash-point part)."""
 import json
+import os
+import random
+import shutil
+from concurrent.futures import ThreadPoolExecutor
+
 import c04
+import common
+import noderig
+
+RECOVER_BOUND_MS = 15000
+
+
+def apply_path_history(args):
+    """membership and node addresses as a RUNNING NODE saves them: `NodeAddr` / `Members` requests go through raft.client_write of a
+    complete single node (leader apply path), are replayed from the log after a restart (start-up replay path) or restored from
+    a snapshot header (after a compaction), next to ordinary writes. After every step the store must serve, for every node id,
+    the address of the last ACKNOWLEDGED NodeAddr request - also for ids that are not (yet) voters - and the member list [1]."""
+    wd, seed, n_ops = args
+    rnd = random.Random(seed)
+    d = os.path.join(wd, "ap%d" % seed)
+    shutil.rmtree(d, ignore_errors=True)
+    res = {"seed": seed, "ops": 0, "checks": 0, "restarts": 0, "compactions": 0, "shapes": set()}
+    sess = None
+    try:
+        sess = noderig.NodeSession(d, snapshot_size=10000)
+        b = sess.call("barrier", min_index=1, bound_ms=RECOVER_BOUND_MS)
+        if not b.get("ok"):
+            res["inconclusive"] = "initial barrier failed: %s" % b
+            return res
+        model = {}
+        last_index = 0
+        trace = []
+        since = []          # what happened since the previous check (signature material)
+
+        def check(where):
+            m = sess.call("raft_meta")
+            if m.get("err") or "node_addrs" not in m:
+                return {"symptom": "raft-meta-unreadable", "detail": m}
+            res["checks"] += 1
+            for nid, addr in sorted(model.items()):
+                got = m["node_addrs"].get(str(nid))
+                if got != addr:
+                    return {"symptom": "address-not-the-acknowledged-one", "node_id": nid, "acknowledged": addr, "served": got, "where": where,
+                            "served_table": m["node_addrs"], "members": m.get("members")}
+            if m.get("members") != [1]:
+                return {"symptom": "membership-not-the-acknowledged-one", "acknowledged": [1], "served": m.get("members"), "where": where}
+            return None
+
+        v = None
+        for i in range(n_ops):
+            x = rnd.random()
+            if x < 0.35:
+                nid = rnd.choice([2, 3, 4, 7])
+                addr = "10.%d.%d.%d:%d" % (rnd.randrange(256), rnd.randrange(256), rnd.randrange(256), rnd.randrange(1, 65535)) if rnd.random() < 0.7 else "n%d.%s.example:%d" % (nid, "x" * rnd.randrange(0, 60), rnd.randrange(1, 65535))
+                r = sess.write({"NodeAddr": {"id": nid, "addr": addr}})
+                kind = "NodeAddr"
+                if r.get("ok"):
+                    model[nid] = addr
+            elif x < 0.5:
+                r = sess.write({"Members": [1]})
+                kind = "Members"
+            elif x < 0.85:
+                r = sess.write({"ConfigSet": {"key": "k%d\x02g" % rnd.randrange(4), "value": "v%d" % i, "config_type": None, "desc": None, "history_id": 0,
+                                              "history_table_id": None, "op_time": 1700000000000 + i, "op_user": None}})
+                kind = "ConfigSet"
+            elif x < 0.93:
+                sess.call("barrier", min_index=last_index, bound_ms=RECOVER_BOUND_MS)
+                r = sess.call("compact")
+                kind = "compact"
+                if r.get("ok"):
+                    res["compactions"] += 1
+            else:
+                sess.call("barrier", min_index=last_index, bound_ms=RECOVER_BOUND_MS)
+                if not noderig.settle_on_disk(sess, d):
+                    res["inconclusive"] = "applied index did not reach the index file"
+                    return res
+                mt = sess.call("metrics")
+                sess.kill()
+                sess = noderig.NodeSession(d, snapshot_size=10000)
+                b2 = sess.call("barrier", min_index=mt.get("last_log_index", 0), bound_ms=RECOVER_BOUND_MS)
+                if not b2.get("ok"):
+                    res["inconclusive"] = "restart barrier failed: %s" % b2
+                    return res
+                res["restarts"] += 1
+                kind, r = "restart", {"ok": True}
+            if kind in ("NodeAddr", "Members", "ConfigSet") and r.get("ok"):
+                last_index = max(last_index, r.get("index", 0))
+            res["ops"] += 1
+            trace.append(kind)
+            since.append(kind)
+            if kind in ("Members", "restart", "compact", "NodeAddr") and model:
+                v = check("after-%s" % kind)
+                if v:
+                    break
+                res["shapes"].add("apply-path/%s-with-%d-learner-addresses%s" % (kind, min(len(model), 3), "/after-compaction" if "compact" in trace else ""))
+                since = []
+        if v:
+            cls = "after-restart" if "restart" in since else "after-%s" % since[-1] if since else "-"
+            if "restart" in since and "compact" in trace:
+                cls = "after-restart-from-snapshot"
+            v["trace_tail"] = trace[-25:]
+            v["history_seed"] = seed
+            v["n_ops"] = n_ops
+            res["violation"] = {"signature": "apply-path/%s/%s" % (v["symptom"], cls), "witness": v}
+        return res
+    except noderig.NodeDied as e:
+        res["inconclusive"] = "node session died: %s" % e
+        return res
+    finally:
+        if sess:
+            sess.kill()
+        shutil.rmtree(d, ignore_errors=True)
+        res["shapes"] = sorted(res["shapes"])
+
+
+def apply_path_part(out, wd, seed, tier):
+    n = 24 if tier == "quick" else 300
+    jobs = [(wd, seed * 100000 + 30000 + i, [25, 60][i % 2]) for i in range(n)]
+    with ThreadPoolExecutor(max_workers=common.NCPU) as ex:
+        rs = list(ex.map(apply_path_history, jobs))
+    agg = {"histories": 0, "ops": 0, "checks": 0, "restarts": 0, "compactions": 0}
+    for r in rs:
+        if "inconclusive" in r:
+            out.extra.setdefault("inconclusive_subruns", []).append("apply-path: " + r["inconclusive"][:250])
+            continue
+        agg["histories"] += 1
+        for k in ("ops", "checks", "restarts", "compactions"):
+            agg[k] += r[k]
+        out.evaluations += r["checks"]
+        for s in r["shapes"]:
+            out.shape(s)
+        if "violation" in r:
+            out.violation(r["violation"]["signature"], r["violation"]["witness"])
+    out.extra["apply_path_layer"] = agg
 
 
 def run(tier, seed):
@@ -8,9 +141,24 @@ def run(tier, seed):
             "writers of the same index file (catalogue rewrites by roll-over / pointer insertion, snapshot catalogue, last-applied header) and reopen; "
             "run under the write-journal interposer; for every journal prefix the image is recovered by the real code and the reported term/vote, "
             "membership and node addresses must be the last ACKNOWLEDGED value (or a later submitted one). non-trivial image = image after a file "
-            "mutation or marker; distinct = (kind of last mutation before the cut, history feature set)")
-    return c04.drive("C05", tier, seed, "C05", ["meta", "meta", "mixed", "snap"], rule)
+            "mutation or marker; distinct = (kind of last mutation before the cut, history feature set). Apply-path layer: NodeAddr / Members "
+            "requests through raft.client_write of a complete single node next to other writes, compactions and quiescent restarts; after every "
+            "such step the store must serve the last acknowledged address of every node id (voter or not) and the member list")
+    return c04.drive("C05", tier, seed, "C05", ["meta", "meta", "mixed", "snap"], rule, extra_part=apply_path_part)
 
 
 def replay(path):
+    w = json.load(open(path))
+    if str(w.get("signature", "")).startswith("apply-path/"):
+        common.build()
+        wd = common.workdir("c05r")
+        try:
+            r = apply_path_history((wd, w["witness"]["history_seed"], w["witness"].get("n_ops", 25)))
+            print(json.dumps(r, indent=1, default=str)[:3000])
+            if "violation" in r:
+                print("VIOLATION property=C05 replay=%s" % path)
+                return 1
+            return 0
+        finally:
+            shutil.rmtree(wd, ignore_errors=True)
     return c04.replay(path)
